@@ -1,4 +1,5 @@
 import XdsVerif.Proofs.Seq
+import XdsVerif.Proofs.Sys
 import XdsVerif.Generated.Facts
 /-!
 # C01 — the served cache equals the fold of the accepted responses
@@ -129,6 +130,32 @@ theorem lds_literal (cfg : Cfg) (rest : List Op) (r : Resp) (n : Name)
 theorem dup_last_wins (k : Name) (v w : Val) (rest : List Slot) (h : resOf rest k = none) :
     resOf (.good k v :: .good k w :: rest) k = some w := by
   simp [resOf, h]
+
+
+/-- **what is cached is subscribed** (all histories): a cached name is in the interest set of its type, so it keeps
+receiving updates and an eviction really ends its subscription -/
+theorem cached_is_subscribed (cfg : Cfg) (ops : List Op) (s : St) (h : run cfg init ops = some s)
+    (rt : RType) (n : Name) (v : Val) (hc : s.cache rt n = some v) :
+    ((s.watched rt).getD []).contains n = true :=
+  Seq.cached_is_subscribed cfg ops s h rt n v hc
+
+/-- **the refinement holds with any number of concurrent lookups**: in the composed system (`Model/Sys.lean`: the
+lookup threads of C05–C07 acting on the client's cache, at the granularity of `Get`'s lock sections), every schedule
+whose response handlers run their sections back to back serves exactly the fold of the accepted responses of the
+history it performed — whatever the lookups do in between (miss, subscribe, wait, time out, re-read) -/
+theorem served_eq_fold_concurrent (cfg : Cfg) (V : Conc.Variant) (T : RType) (tn : Nat → Name)
+    (ls : List Sys.Lbl) (s : Sys.St) (e : Sys.Emit) (ha : Sys.atomic ls = true)
+    (h : Sys.run cfg V T tn Sys.init ls = some (s, e)) (rt : RType) (n : Name) :
+    s.seq.cache rt n = served cfg e.seq.reverse rt n :=
+  served_eq_fold cfg e.seq s.seq (Sys.run_seq cfg V T tn ls Sys.init s e rfl ha h).1 rt n
+
+/-- ... and what a lookup thread reads is that same cache -/
+theorem lookups_read_the_served_cache (cfg : Cfg) (V : Conc.Variant) (T : RType) (tn : Nat → Name)
+    (ls : List Sys.Lbl) (s : Sys.St) (e : Sys.Emit) (ha : Sys.atomic ls = true)
+    (h : Sys.run cfg V T tn Sys.init ls = some (s, e)) (n : Name) :
+    s.conc.cache n = served cfg e.seq.reverse T n := by
+  rw [Sys.coupled_run cfg V T tn ls Sys.init s e (Sys.coupled_init T) h n]
+  exact served_eq_fold_concurrent cfg V T tn ls s e ha h T n
 
 /-! non-vacuity: a concrete Istio-style history (subscribe, name table, listener set, replacement) -/
 def exCfg : Cfg := { sendAborts := true, metaInitNow := true, ndsRequired := true, ns := "default".toList, dom := "cluster.local".toList }
